@@ -236,3 +236,25 @@ Proof.
     by (intros r; destruct r; cbn; congruence).
   cbn [app] in B1, B2, B3, B4. repeat split; assumption.
 Qed.
+
+(* FixLengths is idempotent *)
+Lemma rec_fix_idem r : rec_fix true true (rec_fix true true r) = rec_fix true true r.
+Proof. destruct r as [h m|h c|h p|h l d e]; destruct h; reflexivity. Qed.
+
+Lemma map_fix_idem l : map (rec_fix true true) (map (rec_fix true true) l) = map (rec_fix true true) l.
+Proof. rewrite map_map. apply map_ext. intros r. apply rec_fix_idem. Qed.
+
+(* re-serializing the decoded layer gives the same bytes *)
+Lemma tls_fixpoint : forall l csum junk bytes l' old d junk2,
+  tls_wf l -> tls_serialize l [] true csum junk = (Ok bytes, l') -> tls_decode_into old bytes = (d, Ok tt, false) ->
+  fst (tls_serialize d [] true csum junk2) = Ok bytes.
+Proof.
+  intros l csum junk bytes l' old d junk2 W S D.
+  destruct (tls_roundtrip l csum junk bytes l' old W S) as [d' [D' [E1 [E2 [E3 [E4 _]]]]]].
+  rewrite D in D'. inversion D'; subst d'. clear D'.
+  unfold tls_serialize in *. rewrite tls_serialize_eq in S. inversion S as [[Hb Hl']]. clear S.
+  rewrite tls_serialize_eq. cbn [fst]. f_equal. f_equal. f_equal. f_equal.
+  unfold tls_recs, tls_fixed. cbn [tl_ccs tl_hs tl_app tl_alert].
+  rewrite E1, E2, E3, E4. subst l'. unfold tls_fixed. cbn [tl_ccs tl_hs tl_app tl_alert map].
+  destruct W as [Hh _]. rewrite Hh. cbn [map]. rewrite !map_fix_idem. reflexivity.
+Qed.
